@@ -14,6 +14,7 @@ import (
 	"os"
 	"path/filepath"
 	"testing"
+	"verif/internal/pbt"
 
 	"github.com/modernizing/coca/pkg/application/analysis/pyapp"
 	"github.com/modernizing/coca/pkg/domain/core_domain"
@@ -48,7 +49,7 @@ func FuzzGoProcessString(f *testing.F) {
 		ast_go.VerifResetAstGo()
 		var res *core_domain.CodeContainer
 		if p := call(func() { res = ast_go.NewCocagoParser().ProcessString(code, "fuzz.go", nil) }); p != "" {
-			t.Fatalf("ProcessString panicked on a text go/parser accepts: %s\n%s", p, code)
+			pbt.FuzzFail(t, "go_any", GoAnyCase{Path: "fuzz.go", Code: code}, "ProcessString panicked on a text go/parser accepts: "+p)
 		}
 		if _, err := json.Marshal(res); err != nil {
 			t.Fatalf("result cannot be marshalled: %v", err)
@@ -74,7 +75,7 @@ func FuzzPyAnalysis(f *testing.F) {
 		}
 		ast_python.VerifResetAstPython()
 		if p := call(func() { new(pyapp.PythonIdentApp).Analysis(code, "fuzz.py") }); p != "" {
-			t.Fatalf("Analysis panicked on a text the shipped parser accepts: %s\n%s", p, code)
+			pbt.FuzzFail(t, "py_any", PyAnyCase{Code: code}, "Analysis panicked on a text the shipped parser accepts: "+p)
 		}
 	})
 }
